@@ -11,7 +11,8 @@ DIR = None
 
 POOL = [("a.txt", b"A-content"), ("e.dat", b""), ("emp", DIR), ("sp ace.txt", b"space"), ("ü.bin", b"\xff\x00uml"),
         ("x&<>\"'.txt", b"xmlspecial"), ("d", DIR), ("d/f.txt", b"F-content"), ("d/s", DIR), ("d/s/g.txt", b"G-content"),
-        ("d/s/t", DIR), ("d/s/t/h.txt", b"H-content"), ("dd", DIR), ("dd/q.txt", b"Q-content"), ("d.bak", b"prefix-named file")]
+        ("d/s/t", DIR), ("d/s/t/h.txt", b"H-content"), ("dd", DIR), ("dd/q.txt", b"Q-content"), ("d.bak", b"prefix-named file"),
+        ("d/a.txt", b"same relative path as a.txt once d is a history of its own")]
 POOL_T = [("a.txt", b"A-content"), ("x.tmp", b"tmp1"), ("d", DIR), ("d/f.txt", b"F-content"), ("d/y.tmp", b"tmp2"), ("sub", DIR),
           ("sub/s.txt", b"S"), ("d/sub", DIR), ("d/sub/t.tmp", b"tmp3"), ("keep.tmp.txt", b"not a tmp")]
 POOL_X = POOL + [("ls\u2028ep.txt", b"linesep"), ("d/é è", DIR), ("d/é è/\U0001F3AC.mov", b"astral"),
@@ -206,6 +207,8 @@ def main(tier, seed):
                  dict(k=4, max_gens=2, max_edits=0, pool="p", sf2=False),
                  dict(k=3, max_gens=2, max_edits=0, pool="x", rich=True), dict(k=3, max_gens=2, max_edits=1, pool="t", sf2=False),
                  dict(k=4, max_gens=2, max_edits=0, pool="t", sf2=False)]
+    # the twins a.txt / d/a.txt (same history-relative path once d has its own history) with every -sf pair
+    plans.append(dict(k=3 if tier == "quick" else 4, max_gens=2, max_edits=0, pool="p", only=["a.txt", "d/a.txt"]))
     if os.environ.get("VERIF_ONLY_PLAN"):   # (timing aid when tuning bounds)
         plans = [plans[int(os.environ["VERIF_ONLY_PLAN"])]]
     tot = {"states": 0, "transitions": 0}
@@ -216,7 +219,9 @@ def main(tier, seed):
         if pl["pool"] == "x":  # only the trees that use at least one extended name
             extra = {p for p, _ in POOL_X[len(POOL):]}
             trees = [t for t in trees if extra & set(t)]
-        meta = dict(alpha="c02", oracles=["c02"], gens=0, edits=0, **pl)
+        if pl.get("only"):
+            trees = [t for t in trees if all(x in t for x in pl["only"])]
+        meta = dict(alpha="c02", oracles=["c02"], gens=0, edits=0, **{k: v for k, v in pl.items() if k != "only"})
         r = engine.bfs(eng, e1.expand, [(t, meta, "tree:" + ",".join(sorted(t))) for t in trees],
                        max_depth=pl["max_gens"] + pl["max_edits"], label=ops.label)
         runs.append(dict(pl, initial_trees=len(trees), **r))
